@@ -21,10 +21,10 @@ import (
 
 func init() {
 	explore.Register(&explore.Check{
-		ID:        "C08",
-		Level:     "model_checking",
-		Technique: "small-scope exhaustive enumeration of Bind messages (parameter tuples x parameter-format sections x result-format sections x declared columns/OIDs) run through Parse/Describe/Bind/Describe/Execute/Sync on a real server, compared with the protocol's format rule and an independent value decoder",
-		Rule:      "parameter count 0-3, values from {NULL,\"\",\"a\",\"\\x00\",\"1\"}, format sections {none, one code, one per item} over {0,1}, 0-3 int4 result columns, declared parameter OID lists of length 0-3; plus a typed family (oid, format, encoding, expected value); distinct = distinct Bind configurations",
+		ID:          "C08",
+		Level:       "model_checking",
+		Technique:   "small-scope exhaustive enumeration of Bind messages (parameter tuples x parameter-format sections x result-format sections x declared columns/OIDs) run through Parse/Describe/Bind/Describe/Execute/Sync on a real server, compared with the protocol's format rule and an independent value decoder",
+		Rule:        "parameter count 0-3, values from {NULL,\"\",\"a\",\"\\x00\",\"1\"}, format sections {none, one code, one per item} over {0,1}, 0-3 int4 result columns, declared parameter OID lists of length 0-3; plus a typed family (oid, format, encoding, expected value); distinct = distinct Bind configurations",
 		Assumptions: []string{"inadmissible code counts (1 < n < items) are outside the quantifier", "result columns are int4 so that text and binary encodings differ"},
 		Enumerate:   c08Enumerate,
 		Bounds: func(tier string) map[string]any {
